@@ -581,3 +581,88 @@ pub mod rip {
         }
     }
 }
+
+// ------------------------------------------------------------------ "vp." family: variable-length Poseidon
+
+/// p = [len, filler index]; ins = the message (field elements), then the
+/// filler value. Only the digest is published (the vector is crate-private).
+/// As for `vh.`, the Byzantine stage edits only cells holding the filler
+/// value, a random field element, so the message is unchanged.
+pub mod varpos {
+    use midnight_circuits::{
+        field::{decomposition::chip::P2RDecompositionChip, AssignedNative, NativeChip, NativeGadget},
+        hash::poseidon::VarLenPoseidonGadget,
+        instructions::{hash::VarHashInstructions, vector::VectorInstructions, PublicInputInstructions},
+        testing_utils::FromScratch,
+        vec::{vector_gadget::VectorGadget, AssignedVector},
+    };
+    use midnight_curves::Fq;
+    use midnight_proofs::{
+        circuit::{Layouter, SimpleFloorPlanner, Value},
+        plonk::{Circuit, ConstraintSystem, Error},
+    };
+
+    use crate::{
+        core::prng::Prng,
+        ops::OpCase,
+        util::{draw_fq, uniform_fq, Fe},
+    };
+
+    type F = Fq;
+    type NG = NativeGadget<F, P2RDecompositionChip<F>, NativeChip<F>>;
+    pub const M: usize = 8;
+
+    pub fn gen_case(rng: &mut Prng) -> OpCase {
+        let len = rng.usize(M + 1);
+        // p[1] = 0: the default filler; 1: a chosen one (the last element of `ins`)
+        let chosen = rng.chance(2, 3);
+        let mut ins: Vec<Fe> = (0..len).map(|_| Fe(draw_fq(rng))).collect();
+        ins.push(Fe(if chosen { uniform_fq(rng) } else { Fq::from(0) }));
+        OpCase { op: "vp.poseidon".into(), p: vec![len as u64, chosen as u64], big: vec![], ins, bins: vec![], cols: 4, mbl: 8 }
+    }
+
+    #[derive(Clone)]
+    pub struct VarPosCircuit {
+        pub case: OpCase,
+        pub known: bool,
+    }
+
+    impl Circuit<F> for VarPosCircuit {
+        type Config = (<VarLenPoseidonGadget<F> as FromScratch<F>>::Config, <VectorGadget<F> as FromScratch<F>>::Config);
+        type FloorPlanner = SimpleFloorPlanner;
+        type Params = ();
+        fn without_witnesses(&self) -> Self {
+            VarPosCircuit { case: self.case.clone(), known: false }
+        }
+        fn configure(meta: &mut ConstraintSystem<F>) -> Self::Config {
+            let committed = meta.instance_column();
+            let plain = meta.instance_column();
+            let cols = [committed, plain];
+            (VarLenPoseidonGadget::configure_from_scratch(meta, &cols), VectorGadget::configure_from_scratch(meta, &cols))
+        }
+        fn synthesize(&self, config: Self::Config, mut l: impl Layouter<F>) -> Result<(), Error> {
+            let chip = VarLenPoseidonGadget::<F>::new_from_scratch(&config.0);
+            let ng = NG::new_from_scratch(&config.1);
+            let vg = VectorGadget::new(&ng);
+            let n = self.case.p[0] as usize;
+            let data: Vec<F> = self.case.ins[..n].iter().map(|x| x.0).collect();
+            let filler = (self.case.p[1] == 1).then(|| self.case.ins[n].0);
+            let input: AssignedVector<F, AssignedNative<F>, M, 2> = vg.assign_with_filler(&mut l, if self.known { Value::known(data) } else { Value::unknown() }, filler)?;
+            let out: AssignedNative<F> = chip.varhash(&mut l, &input)?;
+            ng.constrain_as_public_input(&mut l, &out)?;
+            chip.load_from_scratch(&mut l)?;
+            ng.load_from_scratch(&mut l)
+        }
+    }
+
+    pub fn check(c: &OpCase, publics: &[Fq]) -> Result<bool, String> {
+        let n = c.p[0] as usize;
+        let data: Vec<F> = c.ins[..n].iter().map(|x| x.0).collect();
+        let e = super::textbook_poseidon(&data);
+        if publics == [e] {
+            Ok(true)
+        } else {
+            Err(format!("variable-length Poseidon of {n} elements (capacity {M}, {} filler): the circuit publishes another digest than the fixed-length function over the textbook permutation", if c.p[1] == 1 { "chosen" } else { "default" }))
+        }
+    }
+}
